@@ -79,6 +79,14 @@ def gen_history(rng, fam, flavor, length):
     # wrap falls into the start-up sequence (dump time-out) or into the later traffic
     if rng.random() < 0.3:
         ev += [f"clk{2 ** 32 - rng.choice([50, 500, 1500, 1990, 2500, 7000])}"]
+    if not small and rng.random() < 0.4:
+        # (2048 bytes with a 512-byte transmit buffer leave the session state room for well under ten small publications:
+        # beyond ten minimq 0.10 refuses the publication although can_publish() said yes — known finding F7, exercised by a
+        # dedicated history of the C14 check, not by the random ones)
+        bufsize = 2048
+        # a small transmit buffer next to a large session state: several unacknowledged publications fit, so one update()
+        # runs several passes of the list / dump loop (with minimq's default even split it is exactly one)
+        ev += ["txmax512"]
     if flavor == "faults" and rng.random() < 0.3:
         # a slow link: `send()` takes a few bytes per call, so CONNECT / alive / SUBSCRIBE drain over many update() calls and
         # minimq reports NotReady in between (no clock advance meanwhile; such histories are judged by the packet-level
@@ -556,6 +564,13 @@ def run_mqtt(rep, prop_id, rng, tier):
         flavor = rng.choice(FLAVORS[prop_id])
         bufsize, ev = gen_history(rng, fam, flavor, rng.randrange(3, 14))
         hist.append((fam, flavor, bufsize, ev))
+    if prop_id == "C14":
+        # known finding F7, kept visible: a session state that holds more than ten unacknowledged publications (4096 bytes, of
+        # which the transmit buffer takes 512) and a dump / list of more than ten leaves in one update()
+        hist.append((3, "limits", 4096, ["txmax512", "un8", "adv2000", "un12"]))
+        rt_ = cp(PREFIX + "/response")
+        hist.append((3, "limits", 4096, ["txmax512", "auto0", "un8", "adv2000", "un3", "auto1", "un30",
+                                         f"pub:{cp(PREFIX + '/settings')}:e:{rt_}:aa:0:0", "un6"]))
     ok, msg = build_harness("dev")
     if not ok:
         rep.violation("proof", {"what": "harness does not build against /repo", "log": msg}, no_input=True)
